@@ -375,8 +375,6 @@ func leafIncB() {
 func caseCache() {
 	depth := Pick(rnd, []int{0, 1, 2, 3, 4, 6, 8, 16, 64})
 	name := Pick(rnd, []string{"st", "stack/x", "a.b"})
-	vf := counter.VerifNewFile()
-	theStack = vf.NewStack(name, depth)
 	nprogs := 1 + rnd.Intn(5)
 	progs := make([][]byte, nprogs)
 	for i := range progs {
@@ -388,7 +386,22 @@ func caseCache() {
 			progs[i] = append([]byte{byte(rnd.Intn(256))}, progs[i-1]...)
 		}
 	}
-	nincs := 1 + rnd.Intn(12)
+	runCache(name, depth, progs, 1+rnd.Intn(12), -1)
+}
+
+// caseCacheGeneric: two call stacks that differ only in the instantiation of a
+// generic function (pa.G[int] vs pa.G[map[string]pb.Deep]) within the counter's
+// depth: different pcs, but the runtime names both frames pa.G[...].
+func caseCacheGeneric() {
+	out.Note("cache-generic-instantiations")
+	runCache("st", 3, [][]byte{{3}, {20}}, 4, 0)
+}
+
+// runCache: leafSel < 0 picks a random leaf for every Inc.
+func runCache(name string, depth int, progs [][]byte, nincs int, leafSel int) {
+	vf := counter.VerifNewFile()
+	theStack = vf.NewStack(name, depth)
+	nprogs := len(progs)
 	ids := map[uintptr]int{}
 	id := func(pc uintptr) string {
 		if _, ok := ids[pc]; !ok {
@@ -402,6 +415,10 @@ func caseCache() {
 	for k := 0; k < nincs; k++ {
 		pi := rnd.Intn(nprogs)
 		which := rnd.Intn(2)
+		if leafSel >= 0 {
+			pi = k % nprogs
+			which = leafSel
+		}
 		prog = progs[pi]
 		if which == 0 {
 			leaf = leafIncA
@@ -483,6 +500,8 @@ func main() {
 	out = NewOut(outPath)
 	for i := 0; i < n; i++ {
 		switch {
+		case i == 9:
+			caseCacheGeneric()
 		case i%10 < 5:
 			caseEnc()
 		case i%10 < 8:
